@@ -49,6 +49,7 @@ fn var_values(b: &DataBlock) -> Option<Vec<Vec<u8>>> {
 
 pub fn run(args: &Args, sink: &mut Sink, rng: &mut Rng) {
     let mut s = Stream::new("general_wrap", REQ, "chk_general_compress", "list (list N) * list chunk * list (list N)", "bool * list (list N) * list chunk");
+    let mut b_s = Budget::new(args, 170);
     s.shard = 2;
     for k in 0..args.vol(8, 120) {
         // scheme: 0 = LZ4 with an explicit inner compressor (CompressionConfig::default() is the only
@@ -136,7 +137,8 @@ pub fn run(args: &Args, sink: &mut Sink, rng: &mut Rng) {
             pieces = Some(ps);
         }
         if let Some(pieces) = pieces {
-            s.push(
+            b_s.push(
+                &mut s,
                 format!("({}, {}, {})", coq_bufs(&ic.data), coq_chunks(&ic.chunks), coq::list(pieces.iter().map(|p| coq::bytes(p)))),
                 format!("({}, {}, {})", coq::b(wrapped), coq_bufs(&c.data), coq_chunks(&c.chunks)),
                 human.clone(),
